@@ -1012,8 +1012,8 @@ class Fxp():
                         # unsigned codes of less than 64 bits read as (signed) integers: arithmetic on them must not wrap at zero
                         val = val.astype(np.int64)
                 else:
-                    val = raw_val // self._get_conv_factor()
-                    val = np.array(list(map(int, val.flatten()))).reshape(val.shape)
+                    val = np.asarray(raw_val // self._get_conv_factor())    # a 0-d array of python integers divides to a bare int
+                    val = np.array(list(map(int, val.flatten())), dtype=(object if val.dtype == object else None)).reshape(val.shape)
                 
             elif dtype == complex or np.issubdtype(dtype, np.complexfloating):
                 val = (raw_val.real + 1j * raw_val.imag) / self._get_conv_factor()
